@@ -43,7 +43,7 @@ def box(draw, n, scale=1.0):
     lb, ub = [], []
     for _ in range(n):
         kind = ['finite', 'free', 'lower', 'upper', 'finite', 'degenerate'][draw(st.integers(0, 5))]
-        a = draw(st.floats(-2, 2)) * scale
+        a = draw(gen.floats(-2, 2)) * scale
         w = draw(gen.logfloat(-2, 1)) * scale
         if kind == 'free':
             lb.append(-onp.inf)
@@ -68,7 +68,7 @@ def feasible_point(draw, lb, ub, scale=1.0):
     x = []
     for l, u in zip(lb, ub):
         where = ['interior', 'lower', 'upper', 'interior'][draw(st.integers(0, 3))]
-        t = draw(st.floats(0.05, 0.95))
+        t = draw(gen.floats(0.05, 0.95))
         lo = l if onp.isfinite(l) else (u if onp.isfinite(u) else 0.0) - 2 * scale
         hi = u if onp.isfinite(u) else (l if onp.isfinite(l) else 0.0) + 2 * scale
         if where == 'lower' and onp.isfinite(l):
@@ -88,7 +88,7 @@ def feasible_point(draw, lb, ub, scale=1.0):
 def proj_cases(draw):
     n = draw(st.integers(1, 8))
     lb, ub = draw(box(n))
-    x = (onp.array(draw(st.lists(st.floats(-1, 1), min_size=n, max_size=n))) * draw(gen.logfloat(-1, 2))).tolist()
+    x = (onp.array(draw(st.lists(gen.floats(-1, 1), min_size=n, max_size=n))) * draw(gen.logfloat(-1, 2))).tolist()
     xk = draw(feasible_point(lb, ub))
     ys = [draw(feasible_point(lb, ub)) for _ in range(3)]
     ratio = draw(gen.logfloat(-2, 6))
